@@ -20,6 +20,33 @@ for m in glob.glob("/verif/seeded/*/meta.json"):
 CRATES = ["common", "evaluator", "examples", "feel", "feel-grammar", "feel-evaluator", "feel-number", "feel-parser", "gendoc", "model",
           "model-evaluator", "recognizer", "server", "workspace"]
 
+PREFS = {}
+PREFS["8"] = """ (A) a change in a *supporting layer* that the anchored code relies on rather than in the anchored function itself, so that the
+     property breaks only for inputs that travel through that layer in a particular way. Candidates (pick what fits the
+     property): `feel/src/context.rs`, `feel/src/names.rs`, `feel/src/qualified_names.rs`, `feel/src/values.rs`, `feel/src/bif.rs`,
+     `feel/src/function.rs`, `feel/src/ast.rs`, `feel-evaluator/src/bifs/positional.rs`, `feel-evaluator/src/bifs/named.rs`,
+     `feel-evaluator/src/evaluators.rs`, `feel/src/temporal/time.rs`, `feel/src/temporal/date_time.rs`, `model/src/model/parser.rs`,
+     `model/src/model/mod.rs`, `model-evaluator/src/builders/input_data*.rs`, `.../item_definition_context.rs`,
+     `.../business_knowledge_model.rs`, `.../decision_service.rs`, `server/src/dto.rs`, `common/src/*.rs`, `recognizer/src/*.rs`;
+ (B) a trigger that is a CONJUNCTION of two or three ordinary features, none unusual on its own (e.g. a particular optional part
+     together with a particular kind of value in a particular position);
+ (C) a boundary of a size or count: the N-th element, exactly equal lengths, the last of several, more than K entries, a value
+     exactly on a limit;
+ (D) a multi-step history (an earlier call leaves something behind that changes a LATER answer), or - for the properties about
+     threads / the server - a particular interleaving.
+"""
+PREFS["9"] = """ (A) TWO COOPERATING SITES: two small edits in different functions (better: different files or crates), each of which is correct and
+     harmless when read on its own (a helper whose contract is changed slightly + a caller that relied on the old contract; a
+     value normalised in one place and compared raw in another; a default changed here and assumed there);
+ (B) a rarely used public entry point, optional argument, optional XML attribute / element, flag or spelling that the property
+     text names or implies but that everyday use hardly touches (read the property text for them), combined with an ordinary value;
+ (C) a behaviour that differs only for a particular COMBINATION OF VALUE KINDS in a particular position (date vs date-and-time,
+     a range of strings, a context with a null entry, a list of lists, a negative zero, an empty string, a function value ...);
+ (D) a boundary of a size or count (the N-th element, exactly equal lengths, more than K entries, a value exactly on a limit);
+ (E) a fault, error or early exit that is then handled wrongly (state left behind, a later answer changed), or a multi-step
+     history; for the properties about threads / the server also a particular interleaving.
+"""
+
 BRIEF = """# Brief: one realistic, hard-to-notice change that breaks a stated property
 
 You are helping to test a verification tool by mutation: I need ONE realistic change to the Rust repository checked out in
@@ -50,19 +77,7 @@ A change a competent maintainer could plausibly make on an ordinary day (a refac
 differently) and that a reviewer would wave through, NOT sabotage that is obvious on reading. It must need something specific
 to manifest, so that ordinary use and the existing tests do not expose it. In this round I prefer, in this order:
 
- (A) a change in a *supporting layer* that the anchored code relies on rather than in the anchored function itself, so that the
-     property breaks only for inputs that travel through that layer in a particular way. Candidates (pick what fits the
-     property): `feel/src/context.rs`, `feel/src/names.rs`, `feel/src/qualified_names.rs`, `feel/src/values.rs`, `feel/src/bif.rs`,
-     `feel/src/function.rs`, `feel/src/ast.rs`, `feel-evaluator/src/bifs/positional.rs`, `feel-evaluator/src/bifs/named.rs`,
-     `feel-evaluator/src/evaluators.rs`, `feel/src/temporal/time.rs`, `feel/src/temporal/date_time.rs`, `model/src/model/parser.rs`,
-     `model/src/model/mod.rs`, `model-evaluator/src/builders/input_data*.rs`, `.../item_definition_context.rs`,
-     `.../business_knowledge_model.rs`, `.../decision_service.rs`, `server/src/dto.rs`, `common/src/*.rs`, `recognizer/src/*.rs`;
- (B) a trigger that is a CONJUNCTION of two or three ordinary features, none unusual on its own (e.g. a particular optional part
-     together with a particular kind of value in a particular position);
- (C) a boundary of a size or count: the N-th element, exactly equal lengths, the last of several, more than K entries, a value
-     exactly on a limit;
- (D) a multi-step history (an earlier call leaves something behind that changes a LATER answer), or - for the properties about
-     threads / the server - a particular interleaving.
+{prefs}
 The wrong behaviour should be SILENT (a wrong value, a wrong acceptance or rejection, a wrongly changed state) unless the
 property itself is about crashes, hangs or aborts, in which case a panic / abort / endless loop on a specific input is the goal.
 
@@ -158,7 +173,7 @@ for pid in ids:
     if not isinstance(anchors, str):
         anchors = json.dumps(anchors, ensure_ascii=False)
     txt = BRIEF.format(wt=wt, work=work, id=pid, title=p["title"], statement=p["statement"], quantifier=(p["quantifier"].get("text") if isinstance(p["quantifier"], dict) else p["quantifier"]),
-                       why=p["why_tests_cant"], anchors=anchors, rnd=rnd,
+                       why=p["why_tests_cant"], anchors=anchors, rnd=rnd, prefs=PREFS.get(rnd, PREFS["8"]),
                        used=", ".join(sorted(used[pid])) or "(none)",
                        tried="\n".join("  - " + t for t in tried.get(pid, [])) or "  (none)")
     open(os.path.join(wt, "BRIEF.md"), "w").write(txt)
